@@ -223,6 +223,80 @@ fn run_case(setters: &[&OptVal]) -> Result<String, (String, String)> {
     }
 }
 
+// ------------------------------------------------------------------ E3: two threads open the same name with different options
+pub struct OpenRaceBody;
+
+impl crate::e3::Body for OpenRaceBody {
+    fn name(&self) -> String {
+        "two threads open keyspace k with different options".into()
+    }
+    fn launch(&self, dir: &std::path::Path) -> crate::e3::Launched {
+        use crate::sched::*;
+        use std::sync::atomic::{AtomicUsize, Ordering};
+        let db = Database::builder(dir).worker_threads_unchecked(0).open().expect("open");
+        let done = Arc::new(AtomicUsize::new(0));
+        let got: Arc<Mutex<Vec<(usize, u64, String)>>> = Arc::new(Mutex::new(vec![]));
+        let mut handles = vec![];
+        const NAMES: [&str; 2] = ["opener0", "opener1"];
+        for t in 0..2usize {
+            let (db, done, got) = (db.clone(), done.clone(), got.clone());
+            handles.push(spawn_client(NAMES[t], move || {
+                client_point("client.call");
+                let ks = db.keyspace("k", || most_different(t == 0)).expect("keyspace");
+                got.lock().unwrap().push((t, ks.id(), fingerprint(&ks)));
+                drop(ks);
+                drop(db);
+                done.fetch_add(1, Ordering::SeqCst);
+            }));
+        }
+        let after: Arc<Mutex<Option<(usize, String)>>> = Arc::new(Mutex::new(None));
+        {
+            let (done, after) = (done.clone(), after.clone());
+            let dirp = dir.to_path_buf();
+            handles.push(spawn_client("closer", move || {
+                client_block_until(&|| done.load(Ordering::SeqCst) == 2, "closer.wait_clients");
+                let count = db.keyspace_count();
+                drop(db);
+                // reopen: which options are in force now?
+                if let Ok(d2) = Database::builder(&dirp).worker_threads_unchecked(0).open() {
+                    if let Ok(k) = d2.keyspace("k", KeyspaceCreateOptions::default) {
+                        *after.lock().unwrap() = Some((count, fingerprint(&k)));
+                    }
+                }
+            }));
+        }
+        let judge = Box::new(move |_dir: &std::path::Path| -> Result<String, crate::world::Violation> {
+            let got = got.lock().unwrap().clone();
+            if got.len() != 2 {
+                return Err(crate::world::Violation::new("harness", "openers did not finish"));
+            }
+            if got[0].1 != got[1].1 || got[0].2 != got[1].2 {
+                return Err(crate::world::Violation::new(
+                    "options.two_keyspaces_under_one_name",
+                    format!("both threads opened \"k\" but got different keyspaces: ids {} and {}, options differ: {}", got[0].1, got[1].1, got[0].2 != got[1].2),
+                ));
+            }
+            match after.lock().unwrap().clone() {
+                Some((count, f)) => {
+                    if count != 1 {
+                        return Err(crate::world::Violation::new("options.keyspace_count", format!("keyspace_count() = {count}")));
+                    }
+                    if f != got[0].2 {
+                        return Err(crate::world::Violation::new("options.changed_after_reopen", "options after reopen differ from the ones both handles showed".to_string()));
+                    }
+                    Ok(format!("id{}", got[0].1))
+                }
+                None => Err(crate::world::Violation::new("options.reopen_failed", "reopen after the race failed".to_string())),
+            }
+        });
+        crate::e3::Launched { handles, judge }
+    }
+}
+
+pub fn bodies(tier: &str) -> Vec<crate::e3::BodySpec> {
+    vec![crate::e3::BodySpec { body: Arc::new(OpenRaceBody), bound: 2, secs: if tier == "quick" { 6.0 } else { 120.0 } }]
+}
+
 pub fn run(tier: &str) -> i32 {
     let t0 = Instant::now();
     let mut o = Outcome::new("C16", tier, "model_checking");
@@ -289,11 +363,17 @@ pub fn run(tier: &str) -> i32 {
     let mut f = findings.into_inner().unwrap();
     f.sort_by_key(|x| (x.sig.clone(), x.program.len()));
     o.findings = f;
+    crate::e3::fold_e3(&mut o, "C16", tier, &bodies(tier), "e3_");
     o.wall_s = t0.elapsed().as_secs_f64();
     finish(o)
 }
 
 pub fn replay(v: &serde_json::Value) -> i32 {
+    if v["engine"] == "E3-schedcheck" {
+        let tier = v["variant"]["tier"].as_str().unwrap_or("quick");
+        let choices: Vec<usize> = v["variant"]["choices"].as_array().map(|a| a.iter().filter_map(|c| c.as_u64().map(|c| c as usize)).collect()).unwrap_or_default();
+        return crate::e3::replay_schedule(&*bodies(tier)[0].body, &choices);
+    }
     let idx: Vec<usize> = v["variant"]["case"].as_array().map(|a| a.iter().filter_map(|x| x.as_u64().map(|x| x as usize)).collect()).unwrap_or_default();
     for thorough in [false, true] {
         let dom = domain(thorough);
